@@ -35,7 +35,8 @@ META = {
                      'stream sockets deliver descriptors in sending order, '
                      'each no later than the last byte of its message'],
     'assumptions': ['handlers run to completion (Twisted reactor)'],
-    'decided': ['D1 sender order', 'D2 declared count and index',
+    'decided': ['D1 sender order', 'D2 declared count and index; the '
+                'descriptor list is handed on to every nested codec call',
                 'D3 receiver FIFO', 'D4 fresh list per message'],
     'undecided': ['attribution under concrete arrival interleavings'],
 }
